@@ -389,6 +389,7 @@ def do_yield(self, node, val, st):
     want = self.c.returns.elt if isinstance(self.c.returns, Seq) else None
     it = self.concretise(val, want, st) if want is not None else val
     env = dict(self.entry.env)
+    env.update({k: v for k, v in st.env.items() if k not in env})     # locals at the yield site are visible
     env["it"] = it
     for k, p in enumerate(self.c.yields):
         z = self.spec_truth(p, State(env, st.heap, st.pc, st.next_ref, st.ghost, st.labels), old=self.entry)
